@@ -17,7 +17,7 @@ func concJobs(tier string) []Job {
 	}
 	single := []string{"A w/d", "A ./w/d", "R w/d", "R ./w/d", "A w/f", "A w/lf", "R w/f", "R w/lf", "L", "C"}
 	inits := [][]string{{}, {"A w/d"}, {"A w/f"}, {"A w/d", "A w/f"}, {"A w/lf"}}
-	fss := []string{"", "rm w/f", "rm w/f; touch w/f", "mv w/f w/g", "touch w/d/n; rm w/d/n"}
+	fss := []string{"", "rm w/f", "rm w/f; touch w/f", "mv w/f w/g", "touch w/d/n; rm w/d/n", "mv w/f w/g; rm w/g"}
 	bound := 2
 	if tier != "thorough" {
 		inits = inits[:4]
